@@ -36,6 +36,10 @@ pub struct BkCase {
     pub wait: u32,
     /// use emA != spot on the collateral to separate the readings
     pub ema_skew_pm: u16,
+    /// operational state the admin gives the COLLATERAL bank after the borrow: 0 operational, 1 reduce-only, 2 paused
+    /// (its deposits then count for nothing towards new borrowing, but they are still assets of the account)
+    #[serde(default)]
+    pub collateral_state: u8,
 }
 
 pub fn case_strategy() -> impl Strategy<Value = BkCase> {
@@ -50,9 +54,12 @@ pub fn case_strategy() -> impl Strategy<Value = BkCase> {
         prop::bool::weighted(0.3),
         prop::bool::weighted(0.08),
         prop_oneof![2 => Just(0u32), 2 => 1u32..100_000, 3 => 100_000u32..100_000_000],
-        prop_oneof![3 => Just(1000u16), 1 => 500u16..2000],
+        (prop_oneof![3 => Just(1000u16), 1 => 500u16..2000], prop_oneof![6 => Just(0u8), 2 => Just(1u8), 1 => Just(2u8)]),
     )
-        .prop_map(|(mut banks, lenders, collateral, borrow_frac, (insurance_frac, insurance_delta), crash_pm, signer, permissionless, wrong_bank, wait, ema_skew_pm)| {
+        .prop_map(|(mut banks, lenders, collateral, borrow_frac, (insurance_frac, insurance_delta), crash_pm, signer, permissionless, wrong_bank, wait, (ema_skew_pm, collateral_state))| {
+            // a re-stated collateral bank is mostly paired with a mild crash or none: the account then stays solvent and
+            // the settlement must be refused whatever the bank's state
+            let crash_pm = if collateral_state != 0 && crash_pm < 50 && crash_pm % 2 == 0 { 1000 - crash_pm * 10 } else { crash_pm };
             for (i, b) in banks.iter_mut().enumerate() {
                 b.init_limit = 0;
                 b.emode_tag = 0;
@@ -76,7 +83,7 @@ pub fn case_strategy() -> impl Strategy<Value = BkCase> {
                     b.permissionless_bad_debt = permissionless;
                 }
             }
-            BkCase { spec: WorldSpec { banks, n_users: 7, program_fees_enabled: false, ..WorldSpec::default() }, lenders, collateral, borrow_frac, insurance_frac, insurance_delta, crash_pm, signer, permissionless, wrong_bank, wait, ema_skew_pm }
+            BkCase { spec: WorldSpec { banks, n_users: 7, program_fees_enabled: false, ..WorldSpec::default() }, lenders, collateral, borrow_frac, insurance_frac, insurance_delta, crash_pm, signer, permissionless, wrong_bank, wait, ema_skew_pm, collateral_state }
         })
 }
 
@@ -90,6 +97,7 @@ pub struct Stats {
     pub killed: bool,
     pub terminal_checked: bool,
     pub entitled: bool,
+    pub collateral_restated: bool,
 }
 
 fn set_token_amount(vm: &mut Vm, k: &Pubkey, amount: u64) {
@@ -195,6 +203,15 @@ pub fn run_case(c: &BkCase, stats: &mut Stats) -> Result<(), (String, String)> {
     };
     if ins > 0 {
         set_token_amount(&mut w.vm, &w.banks[db].iv.clone(), ins);
+    }
+    // the admin may take the collateral bank out of normal operation first
+    if c.collateral_state != 0 {
+        let mut o = BankConfigOpt::default();
+        o.operational_state = Some(if c.collateral_state == 1 { BankOperationalState::ReduceOnly } else { BankOperationalState::Paused });
+        let ix = w.ix_configure_bank(cb, o, w.roles.admin);
+        if w.vm.exec(&ix).is_ok() {
+            stats.collateral_restated = true;
+        }
     }
     // crash the collateral
     {
@@ -358,7 +375,7 @@ pub fn run_case(c: &BkCase, stats: &mut Stats) -> Result<(), (String, String)> {
     Ok(())
 }
 
-const RULE: &str = "proptest: 3-bank worlds (generated decimals, SPL / Token-2022 / transfer-fee mints, oracles with EMA skew), 1-5 depositors with generated shares in the debt bank, a victim that borrows a generated fraction (up to all) of the liquidity against collateral whose price is then crashed (to the minimum or only partly = control), interest with fees accruing for a generated time, insurance vault funded at {0, fraction of, exactly +-2 of, more than} the accrued debt, signer in {admin, risk admin, stranger} x permissionless flag, right / wrong bank. On success: signer entitled; account bankrupt under at least one admissible reading (spot/EMA x stored/accrued); debt in this bank > 0.0001; insurance used first and not overdrawn; deposit shares untouched for every depositor and total claims fall by exactly debt - cover; share value >= 0; wipe-out => bank killed, and a killed bank survives every configure_bank(operational_state) and refuses deposits; account disabled, debt cleared, total debt falls by the bad debt. Non-trivial = successful settlement with >= 2 depositors; regimes (insured / socialised / wipe-out) and rejection codes are counted.";
+const RULE: &str = "proptest: 3-bank worlds (generated decimals, SPL / Token-2022 / transfer-fee mints, oracles with EMA skew), 1-5 depositors with generated shares in the debt bank, a victim that borrows a generated fraction (up to all) of the liquidity against collateral whose price is then crashed (to the minimum or only partly = control), interest with fees accruing for a generated time, the collateral bank left operational / set reduce-only / paused by the admin after the borrow (its deposits are still the account's assets), insurance vault funded at {0, fraction of, exactly +-2 of, more than} the accrued debt, signer in {admin, risk admin, stranger} x permissionless flag, right / wrong bank. On success: signer entitled; account bankrupt under at least one admissible reading (spot/EMA x stored/accrued); debt in this bank > 0.0001; insurance used first and not overdrawn; deposit shares untouched for every depositor and total claims fall by exactly debt - cover; share value >= 0; wipe-out => bank killed, and a killed bank survives every configure_bank(operational_state) and refuses deposits; account disabled, debt cleared, total debt falls by the bad debt. Non-trivial = successful settlement with >= 2 depositors; regimes (insured / socialised / wipe-out) and rejection codes are counted.";
 
 pub fn run(ctx: &Ctx) -> Report {
     let cases: u32 = ctx.tier.pick(2500, 50_000);
@@ -385,6 +402,9 @@ pub fn run(ctx: &Ctx) -> Report {
                 }
                 if let Some(e) = st.err {
                     rep.label(&format!("rejected:{e}"));
+                }
+                if st.collateral_restated {
+                    rep.label(&format!("collateral-bank-{}:{}", if c.collateral_state == 1 { "reduce-only" } else { "paused" }, if st.success { "settled" } else { "refused" }));
                 }
                 if st.success && st.depositors >= 2 {
                     rep.nontrivial_case(&json!({"r": st.regime, "n": st.depositors, "s": c.signer, "p": c.permissionless, "i": c.insurance_frac, "d": c.insurance_delta, "t": c.spec.banks[1].token, "w": c.wait, "b": c.borrow_frac}));
